@@ -324,6 +324,7 @@ class P(Prop):
         importlib.import_module("tracklib.algo.simplification")
         self.S = sys.modules["tracklib.algo.segmentation"]
         self.Z = sys.modules["tracklib.algo.simplification"]
+        self.G = importlib.import_module("tracklib.util.geometrics")
         self.np = np
         from tracklib.core import Obs, ENUCoords, ObsTime
         from tracklib.core.track import Track
@@ -403,7 +404,76 @@ class P(Prop):
             out.append(self.rand_sb(rng))
         for _ in range(400 if q else 4000):
             out.append(self.rand_stops(rng))
+        for _ in range(1500 if q else 15000):
+            out.append(self.rand_mc(rng))
         return out
+
+    # ---- minCircle (util/geometrics.py: __welzl, __circle) with the random draws as an explicit parameter
+    def rand_mc(self, rng):
+        n = rng.choice([0, 1, 2, 3, 3, 4, 4, 5, 5, 6, 6, 7])
+        fam = rng.choice(["lattice", "lattice", "quarter", "wide"])
+        def coord():
+            if fam == "lattice":
+                return float(rng.randrange(0, 6))
+            if fam == "quarter":
+                return rng.randrange(0, 25) / 4.0
+            return float(rng.randrange(-40, 41))
+        zs = rng.choice(["zero", "zero", "var"])
+        pts = []
+        for _ in range(n):
+            if pts and rng.random() < 0.12:       # a fix met twice (same place; with `var` possibly another altitude)
+                b = rng.choice(pts)
+                pts.append([b[0], b[1], b[2] if zs == "zero" or rng.random() < 0.5 else float(rng.randrange(0, 4))])
+            else:
+                pts.append([coord(), coord(), 0.0 if zs == "zero" else float(rng.randrange(0, 4))])
+        return {"kind": "mc", "pts": pts, "draws": [rng.randrange(0, 5040) for _ in range(rng.choice([1, 7, 40]))],
+                "form": "points" if n == 0 else rng.choice(["points", "track"])}
+
+    def mc_tie(self, case):
+        """a point (by index) exactly on the circle through three other, non-collinear points: the code tests it against a
+        centre computed in rounded complex arithmetic — the doubles decide, the run is not compared (predicate on the input)"""
+        P = [(Fraction(x), Fraction(y)) for x, y, _ in case["pts"]]
+        for i, j, k in itertools.combinations(range(len(P)), 3):
+            if (P[j][0] - P[i][0]) * (P[k][1] - P[i][1]) - (P[k][0] - P[i][0]) * (P[j][1] - P[i][1]) == 0:
+                continue
+            (ax, ay), (bx, by), (cx, cy) = P[i], P[j], P[k]
+            d = 2 * ((bx - ax) * (cy - ay) - (by - ay) * (cx - ax))
+            b2 = (bx - ax) ** 2 + (by - ay) ** 2
+            c2 = (cx - ax) ** 2 + (cy - ay) ** 2
+            ux = ((cy - ay) * b2 - (by - ay) * c2) / d
+            uy = ((bx - ax) * c2 - (cx - ax) * b2) / d
+            for l in range(len(P)):
+                if l not in (i, j, k) and (P[l][0] - ax - ux) ** 2 + (P[l][1] - ay - uy) ** 2 == ux * ux + uy * uy:
+                    return True
+        return False
+
+    def mc_run(self, case):
+        G = self.G
+        dr = case["draws"]
+        count = [0]
+        class Src:
+            def randint(self_, a, b):
+                v = a + dr[count[0] % len(dr)] % (b - a + 1)
+                count[0] += 1
+                return v
+            def random(self_):
+                raise ArithmeticError("__circle perturbs a point by random.random() * 1e-10")
+        pos = [self.ENU(x, y, z) for x, y, z in case["pts"]]
+        real = G.random
+        G.random = Src()
+        try:
+            if case["form"] == "track":
+                t = self.Track([], 7)
+                for i, p in enumerate(pos):
+                    t.addObs(self.Obs(p, self.T.readUnixTime(i)))
+                c = G.minCircle(t)
+            else:
+                c = G.minCircleOfPoints(pos)
+        finally:
+            G.random = real
+        if c is None:
+            return {"res": "none"}
+        return {"c": [float(c.center.getX()), float(c.center.getY()), float(c.radius) ** 2], "draws": count[0]}
 
     def rand_matrix(self, rng, N, s):
         rows = N + 1
@@ -680,6 +750,11 @@ class P(Prop):
             t["smode"] = case["smode"]
             g = case["tol"]
             t["tol"] = "none" if g[0] == "none" else ("falsy " if not pyval(g, self.np) else "") + g[0]
+        if k == "mc":
+            t["points"] = len(case["pts"])
+            t["form"] = case["form"]
+            t["input"] = ("exact tie with a three-point circle (doubles decide: not compared)" if self.mc_tie(case) else
+                          "a place met twice" if len({(x, y) for x, y, _ in case["pts"]}) < len(case["pts"]) else "distinct places")
         if k == "stops":
             g = self.geometry(case)
             t["criterion"] = "rtk variant (delegation only)" if case.get("rtk") else (
@@ -699,6 +774,8 @@ class P(Prop):
             return case["N"] >= 3
         if k in ("part", "partseq"):
             return len(case["C"]) - 1 >= 3 and not case.get("dom")
+        if k == "mc":
+            return len(case["pts"]) >= 3 and not self.mc_tie(case)
         if k == "stops":
             g = self.geometry(case)
             return len(g["R"]) >= 4 and not g.get("unsure") and any(v for r in g["R"] for v in r)
@@ -811,6 +888,8 @@ class P(Prop):
     def impl(self, case):
         k = case["kind"]
         S, Z = self.S, self.Z
+        if k == "mc":
+            return self.mc_run(case)
         if k in ("sym", "part"):
             s, M = self.matrix(case)
             form = case.get("form")
@@ -1158,6 +1237,10 @@ class P(Prop):
 
     def requests(self, case):
         k = case["kind"]
+        if k == "mc":
+            return ["C12.mincircle q 1/10000 %s %s" % (
+                ";".join(",".join(ratstr(Fraction(v)) for v in p) for p in case["pts"]) or "_",
+                ",".join(str(d) for d in case["draws"]))]
         if k in ("sym", "part"):
             s, M = self.matrix(case)
             m = 2 if case.get("modeval") in NEITHER else int(self.MODES[case["mode"]])
@@ -1247,6 +1330,13 @@ class P(Prop):
         r = replies[0]
         if any(x == "bad-request" for x in replies):
             raise ValueError("bad-request")
+        if k == "mc":
+            if r == "none":
+                return {"res": "none"}
+            if r in ("random", "stuck"):
+                return {"err": "model:" + r}
+            cx, cy, r2, n, enc = r.split(" ")
+            return {"c": [float(Fraction(cx)), float(Fraction(cy)), float(Fraction(r2))], "draws": int(n), "enc": enc == "1"}
         if k == "partseq":
             return {"seq": [[int(x) for x in rr.split(" ")[0].split(",")] for rr in replies]}
         if k == "feseq":
@@ -1292,6 +1382,21 @@ class P(Prop):
 
     def compare(self, case, impl_out, model_out):
         k = case["kind"]
+        if k == "mc":
+            if self.mc_tie(case):
+                return None
+            if "err" in impl_out or "err" in model_out:
+                return "minCircle: implementation %s, model %s" % (impl_out, model_out)
+            if ("res" in impl_out) != ("res" in model_out):
+                return "minCircle: implementation %s, model %s" % (impl_out, model_out)
+            if "res" in impl_out:
+                return None
+            if impl_out["draws"] != model_out["draws"]:
+                return "minCircle: %d random draws made, model %d" % (impl_out["draws"], model_out["draws"])
+            for a, b, w in zip(impl_out["c"], model_out["c"], ("centre x", "centre y", "squared radius")):
+                if abs(a - b) > 1e-9 * max(1.0, abs(a), abs(b)):
+                    return "minCircle: %s %r, model %r" % (w, a, b)
+            return None
         if case.get("dom"):
             return None   # single/no candidate, asymmetric matrix: outside the property's domain, behaviour left free
         if k == "feseq" and "seq" in impl_out:
@@ -1392,6 +1497,10 @@ class P(Prop):
     def spec(self, case, out):
         k = case["kind"]
         if case.get("dom"):
+            return None
+        if k == "mc":
+            # the property states nothing about minCircle by itself (its effect on findStopsGlobal is judged in the `stops`
+            # stream against the documented criterion): this stream is a correspondence of the routine with its model only
             return None
         if k == "feseq":
             if "seq" not in out:
@@ -1549,6 +1658,12 @@ class P(Prop):
     # ---------------------------------------------------------------- shrinking / search
     def shrink(self, case):
         k = case["kind"]
+        if k == "mc":
+            for i in range(len(case["pts"])):
+                yield dict(case, pts=case["pts"][:i] + case["pts"][i + 1:], form="points")
+            if len(case["draws"]) > 1:
+                yield dict(case, draws=case["draws"][:len(case["draws"]) // 2])
+            return
         if k == "sym":
             s, M = self.matrix(case)
             case = {"kind": "part", "s": "q", "mode": case["mode"], "C": M}
